@@ -366,6 +366,12 @@ pub fn boundary_positions() -> Vec<u64> {
     }
     v.push(u64::MAX - 3);
     v.push(u64::MAX - 8);
+    // every power of two, not only the byte carries: 2^k - 2, 2^k - 1, 2^k, 2^k + 1 (a counter or a
+    // nonce stepped incrementally goes wrong where a carry chain ends, which can be any bit)
+    for k in 1..64u32 {
+        let b = 1u64 << k;
+        v.extend_from_slice(&[b - 2, b - 1, b, b + 1]);
+    }
     v.sort();
     v.dedup();
     v
